@@ -12,7 +12,7 @@
                             n_eff = n (+ lam / signed_period when poled),   T = |0.5 L / d_z| |d| / v_g. *)
 From Coq Require Import Reals Lra List.
 From Coquelicot Require Import Coquelicot.
-From SpdVerif Require Import Base.Rx Spec.CrystalTypes Model.Optics Model.Fresnel Gen.Fresnel Gen.Kinematics Proofs.C02_fd Proofs.C02_gen.
+From SpdVerif Require Import Base.Rx Spec.CrystalTypes Model.Optics Model.Fresnel Gen.Fresnel Gen.Kinematics Proofs.C02_fd Proofs.Compose_fd_local Proofs.C02_gen.
 Local Open Scope R_scope.
 
 Definition light_speed : R := 299792458.
@@ -107,32 +107,36 @@ Proof.
   - apply (Rmult_lt_reg_r n); [lra|]. replace (299792458 / n * n) with 299792458 by (field; lra). nra.
 Qed.
 
-(* ---- the exact derivative, under a smoothness hypothesis on lambda |-> index lambda d p: the code's slope is within
-   M h^2 / 6 of dn/dlambda, h = eps64^(1/3) |lambda| (eps64^(1/3) at lambda = 0), M a bound on the third derivative;
-   consequently for the group velocity *)
-Theorem kin_slope_vs_derivative : forall M : R,
-  (forall t k, (k <= 3)%nat -> ex_derive_n (fun lm => index lm d p) k t) ->
-  (forall t, Rabs (Derive_n (fun lm => index lm d p) 3 t) <= M) ->
+(* ---- the exact derivative, under a LOCAL smoothness hypothesis on lambda |-> index lambda d p: three times differentiable on an
+   open interval (a, b) that contains the two sample points lambda -+ h, third derivative bounded by M between them
+   (h = fd_step_gen lambda = eps64^(1/3) |lambda|, eps64^(1/3) at lambda = 0).  Then the code's slope is within M h^2 / 6 of
+   dn/dlambda; consequently for the group velocity.  (A Sellmeier index is smooth only away from its poles: the hypotheses are
+   about the neighbourhood the code actually samples.) *)
+Theorem kin_slope_vs_derivative : forall M a b : R,
+  a < l - fd_step_gen l -> l + fd_step_gen l < b ->
+  (forall t, a < t < b -> forall k, (k <= 3)%nat -> ex_derive_n (fun lm => index lm d p) k t) ->
+  (forall t, l - fd_step_gen l < t < l + fd_step_gen l -> Rabs (Derive_n (fun lm => index lm d p) 3 t) <= M) ->
   Rabs (D - Derive (fun lm => index lm d p) l) <= M * fd_step_gen l ^ 2 / 6.
 Proof.
-  intros M Hsm HM. pose proof (fd_step_pos l) as Hh.
-  pose proof (central_difference_error (fun lm => index lm d p) l (fd_step_gen l) M Hh Hsm (fun t _ => HM t)) as Hc.
+  intros M a b Ha Hb Hsm HM. pose proof (fd_step_pos l) as Hh.
+  pose proof (central_difference_error_local (fun lm => index lm d p) l (fd_step_gen l) M a b Hh Ha Hb Hsm HM) as Hc.
   rewrite kin_slope_is_central_difference.
   replace (0.5 * (index ((l + fd_step_gen l) * 1) d p - index ((l - fd_step_gen l) * 1) d p) / fd_step_gen l)
     with ((index (l + fd_step_gen l) d p - index (l - fd_step_gen l) d p) / (2 * fd_step_gen l)); [exact Hc|].
   rewrite !Rmult_1_r. replace 0.5 with (/ 2) by lra. field. lra.
 Qed.
 
-Theorem kin_group_velocity_vs_derivative : forall M : R, 0 < n ->
-  (forall t k, (k <= 3)%nat -> ex_derive_n (fun lm => index lm d p) k t) ->
-  (forall t, Rabs (Derive_n (fun lm => index lm d p) 3 t) <= M) ->
+Theorem kin_group_velocity_vs_derivative : forall M a b : R, 0 < n ->
+  a < l - fd_step_gen l -> l + fd_step_gen l < b ->
+  (forall t, a < t < b -> forall k, (k <= 3)%nat -> ex_derive_n (fun lm => index lm d p) k t) ->
+  (forall t, l - fd_step_gen l < t < l + fd_step_gen l -> Rabs (Derive_n (fun lm => index lm d p) 3 t) <= M) ->
   Rabs (beam_group_velocity_off_gen index omega d p - light_speed / n * (1 + l / n * Derive (fun lm => index lm d p) l))
     <= light_speed * Rabs l / (n * n) * (M * fd_step_gen l ^ 2 / 6).
 Proof.
-  intros M Hn Hsm HM. rewrite kin_group_velocity_off by lra.
+  intros M a b Hn Ha Hb Hsm HM. rewrite kin_group_velocity_off by lra.
   replace (light_speed / n * (1 + l / n * D) - light_speed / n * (1 + l / n * Derive (fun lm => index lm d p) l))
     with (light_speed * l / (n * n) * (D - Derive (fun lm => index lm d p) l)) by (field; lra).
-  rewrite Rabs_mult. pose proof (kin_slope_vs_derivative M Hsm HM) as H.
+  rewrite Rabs_mult. pose proof (kin_slope_vs_derivative M a b Ha Hb Hsm HM) as H.
   assert (E : Rabs (light_speed * l / (n * n)) = light_speed * Rabs l / (n * n)).
   { unfold Rdiv. rewrite !Rabs_mult, Rabs_inv. rewrite (Rabs_right light_speed) by (unfold light_speed; lra).
     rewrite (Rabs_right (n * n)) by nra. reflexivity. }
